@@ -96,8 +96,8 @@ func (fc *FuncCtx) instr(in ssa.Instruction, st *State, reach string) *State {
 			} else {
 				tv = fc.setVal(x, fc.loadLoc(l, st))
 			}
-			q.assume(fc.wf(tv.T, x.Type()))
-			q.assume(fc.allocd(tv.T, x.Type(), st.get("$wm")))
+			fc.assumeReached(fc.wf(tv.T, x.Type()))
+			fc.assumeReached(fc.allocd(tv.T, x.Type(), st.get("$wm")))
 			if _, ok := x.Type().Underlying().(*types.Pointer); ok {
 				// loaded references are allocated (closure of the heap under the watermark is assumed)
 			}
@@ -206,10 +206,10 @@ func (fc *FuncCtx) instr(in ssa.Instruction, st *State, reach string) *State {
 				v := q.define(fc.name(x)+"_v", so, val)
 				ok := q.define(fc.name(x)+"_ok", "Bool", has)
 				fc.tup[x] = []TV{{T: v, S: so, G: t.Elem()}, {T: ok, S: "Bool", G: types.Typ[types.Bool]}}
-				q.assume(fc.wf(v, t.Elem()))
+				fc.assumeReached(fc.wf(v, t.Elem()))
 			} else {
 				tv := fc.setVal(x, val)
-				q.assume(fc.wf(tv.T, t.Elem()))
+				fc.assumeReached(fc.wf(tv.T, t.Elem()))
 			}
 		}
 		return st
@@ -409,7 +409,7 @@ func (fc *FuncCtx) binop(x *ssa.BinOp, reach string) {
 		} else {
 			f := eng.ufun("bit.and", []string{"Int", "Int"}, "Int")
 			tv := fc.setVal(x, fmt.Sprintf("(%s %s %s)", f, l.T, r.T))
-			fc.q.assume(fc.wf(tv.T, x.Type()))
+			fc.assumeReached(fc.wf(tv.T, x.Type()))
 		}
 	case token.SHR:
 		if c, ok := x.Y.(*ssa.Const); ok && c.Value != nil && c.Value.ExactString() == "1" {
@@ -417,7 +417,7 @@ func (fc *FuncCtx) binop(x *ssa.BinOp, reach string) {
 		} else {
 			f := eng.ufun("bit.shr", []string{"Int", "Int"}, "Int")
 			tv := fc.setVal(x, fmt.Sprintf("(%s %s %s)", f, l.T, r.T))
-			fc.q.assume(fc.wf(tv.T, x.Type()))
+			fc.assumeReached(fc.wf(tv.T, x.Type()))
 		}
 	case token.SHL:
 		if c, ok := x.Y.(*ssa.Const); ok && c.Value != nil && c.Value.ExactString() == "1" {
@@ -425,12 +425,12 @@ func (fc *FuncCtx) binop(x *ssa.BinOp, reach string) {
 		} else {
 			f := eng.ufun("bit.shl", []string{"Int", "Int"}, "Int")
 			tv := fc.setVal(x, fmt.Sprintf("(%s %s %s)", f, l.T, r.T))
-			fc.q.assume(fc.wf(tv.T, x.Type()))
+			fc.assumeReached(fc.wf(tv.T, x.Type()))
 		}
 	case token.OR, token.XOR, token.AND_NOT:
 		f := eng.ufun("bit."+x.Op.String(), []string{"Int", "Int"}, "Int")
 		tv := fc.setVal(x, fmt.Sprintf("(%s %s %s)", f, l.T, r.T))
-		fc.q.assume(fc.wf(tv.T, x.Type()))
+		fc.assumeReached(fc.wf(tv.T, x.Type()))
 	default:
 		fc.unsupported("binop %s", x.Op)
 	}
@@ -454,7 +454,7 @@ func (fc *FuncCtx) convert(x *ssa.Convert, st *State, reach string) {
 		tv := fc.freshVal(x)
 		inr := fmt.Sprintf("(and (<= %s %s) (<= %s %s))", lo, v.T, v.T, hi)
 		fc.q.assume(fmt.Sprintf("(=> %s (= %s %s))", inr, tv.T, v.T))
-		fc.q.assume(fc.wf(tv.T, x.Type()))
+		fc.assumeReached(fc.wf(tv.T, x.Type()))
 		if fc.topCtx().checked {
 			fc.safety("overflow", reach, inr, "integer conversion preserves the value")
 		}
@@ -470,7 +470,7 @@ func (fc *FuncCtx) convert(x *ssa.Convert, st *State, reach string) {
 	case fIsB && fb.Info()&types.IsString != 0 && eng.sorts.sortOf(x.Type()) == "Slice":
 		// []byte(s): fresh array holding the bytes of s. Modelled as unconstrained fresh slice with content facts.
 		tv := fc.freshVal(x)
-		fc.q.assume(fc.wf(tv.T, x.Type()))
+		fc.assumeReached(fc.wf(tv.T, x.Type()))
 		fc.q.assume(fmt.Sprintf("(= (s-len %s) (str.len %s))", tv.T, v.T))
 		fc.eng.warn("%s: []byte(string) conversion: contents not modelled", fc.fnName)
 	default:
@@ -546,7 +546,7 @@ func (fc *FuncCtx) typeAssert(x *ssa.TypeAssert, reach string) {
 	}
 	fc.safety("type-assert", reach, ok, fmt.Sprintf("type assertion to %s succeeds", x.AssertedType))
 	tv := fc.setVal(x, val)
-	q.assume(fc.wf(tv.T, x.AssertedType))
+	fc.assumeReached(fc.wf(tv.T, x.AssertedType))
 }
 
 func (fc *FuncCtx) sliceOp(x *ssa.Slice, st *State, reach string) *State {
@@ -567,7 +567,13 @@ func (fc *FuncCtx) sliceOp(x *ssa.Slice, st *State, reach string) *State {
 		}
 		fc.safety("slice-bounds", reach, fmt.Sprintf("(and (<= 0 %s) (<= %s %s) (<= %s %s) (<= %s (s-cap %s)))", lo, lo, hi, hi, mx, mx, base.T), "slice bounds 0 <= lo <= hi <= cap")
 		// a nil slice sliced [0:0] stays nil
-		fc.setVal(x, fmt.Sprintf("(mk-slice (s-arr %s) (+ (s-off %s) %s) (- %s %s) (- %s %s))", base.T, base.T, lo, hi, lo, mx, lo))
+		tv := fc.setVal(x, fmt.Sprintf("(mk-slice (s-arr %s) (+ (s-off %s) %s) (- %s %s) (- %s %s))", base.T, base.T, lo, hi, lo, mx, lo))
+		// a reslice reads the elements of the slice it was cut from (stated through the indexing function the
+		// clauses use, so that a quantified fact about the elements of the one is found for the other)
+		eh := fc.eng.elemHeap(t.Elem())
+		ef := fc.eng.elemFn(fc.eng.sorts.sortOf(t.Elem()))
+		h := st.get(eh)
+		fc.q.assume(fmt.Sprintf("(forall ((k Int)) (! (= (%s %s %s k) (%s %s %s (+ k %s))) :pattern ((%s %s %s k))))", ef, h, tv.T, ef, h, base.T, lo, ef, h, tv.T))
 	case *types.Basic: // string
 		hi := fmt.Sprintf("(str.len %s)", base.T)
 		if x.High != nil {
@@ -638,8 +644,8 @@ func (fc *FuncCtx) rangeNext(x *ssa.Next, st *State, reach string) *State {
 	// exhaustion: when not ok every key has been visited
 	q.assume(fmt.Sprintf("(=> (not %s) (forall ((kk %s)) (! (=> (select (select %s %s) kk) (select (select %s %s) kk)) :pattern ((select (select %s %s) kk)))))", ok, ks, st.get(mh), m.T, st.get(vis), iter.T, st.get(mh), m.T))
 	v := q.define(fc.name(x)+"_v", vs, fmt.Sprintf("(select (select %s %s) %s)", st.get(mv), m.T, k))
-	q.assume(fc.wf(v, mt.Elem()))
-	q.assume(fc.wf(k, mt.Key()))
+	fc.assumeReached(fc.wf(v, mt.Elem()))
+	fc.assumeReached(fc.wf(k, mt.Key()))
 	vh := st.get(vis)
 	st.set(vis, fmt.Sprintf("(ite %s (store %s %s (store (select %s %s) %s true)) %s)", ok, vh, iter.T, vh, iter.T, k, vh))
 	st.set(it, fmt.Sprintf("(store %s %s (ite %s (+ %s 1) %s))", st.get(it), iter.T, ok, cur, cur))
